@@ -67,6 +67,12 @@ func init() { register(Engine{"stall", runStall}) }
 
 var errInjected = errors.New("injected transport failure")
 
+// panics of the counterpart goroutine (context.Background side of a run), recovered so that the engine goes on
+var (
+	stallPeerPanics   atomic.Int64
+	stallPeerPanicMsg atomic.Value
+)
+
 const (
 	stallReturnBound = 1500 * time.Millisecond // liveness detector: return after the context fired
 	stallCloseBound  = 1500 * time.Millisecond // liveness detector: Close after return
@@ -701,6 +707,7 @@ type stallPlan struct {
 	sched   string // nofault-bg nofault-live guard during dline race never unfired after ioerr-bg ioerr-live past-cancel past-dline
 	k       int
 	timeout time.Duration
+	scale   int // liveness bounds are multiplied by this (0 = 1); 10 when a late run is repeated on its own
 }
 
 func waitClosed(sc *stallConn, bound time.Duration) bool {
@@ -715,6 +722,11 @@ func waitClosed(sc *stallConn, bound time.Duration) bool {
 }
 
 func stallExec(sub stallSubject, pl stallPlan) (o stallObs) {
+	scale := time.Duration(1)
+	if pl.scale > 1 {
+		scale = time.Duration(pl.scale)
+	}
+	stallReturnBound, stallCloseBound, stallSetupBound := stallReturnBound*scale, stallCloseBound*scale, stallSetupBound*scale
 	inst, err := sub.setup()
 	if err != nil {
 		o.setupErr = err
@@ -764,7 +776,12 @@ func stallExec(sub stallSubject, pl stallPlan) (o stallObs) {
 	peerDone := make(chan struct{})
 	go func() {
 		defer close(peerDone)
-		defer func() { _ = recover() }()
+		defer func() {
+			if p := recover(); p != nil { // the counterpart died: the run proves nothing; made visible (runStall)
+				stallPeerPanics.Add(1)
+				stallPeerPanicMsg.CompareAndSwap(nil, fmt.Sprintf("%s %s k=%d: %v", sub.name, pl.sched, pl.k, p))
+			}
+		}()
 		inst.peer(b)
 	}()
 	type res struct {
@@ -800,6 +817,14 @@ func stallExec(sub stallSubject, pl stallPlan) (o stallObs) {
 			got = true
 			return true
 		case <-time.After(bound):
+			// the timer and the result may have become ready together (select picks at random): look again
+			select {
+			case r := <-resCh:
+				finish(r)
+				got = true
+				return true
+			default:
+			}
 			return false
 		}
 	}
@@ -853,8 +878,11 @@ func stallExec(sub stallSubject, pl stallPlan) (o stallObs) {
 	if got && !firedAt.IsZero() {
 		o.retAfter = time.Since(firedAt)
 	}
-	// connection state as the library left it (an asynchronous watcher gets its time)
-	if got && strings.HasPrefix(o.ret, "ctx:") {
+	// connection state as the library left it. When the context had fired by the time the operation
+	// returned (whatever error it chose to return) the close is EXPECTED and may come from an
+	// asynchronous watcher: poll for it up to the bound (returns as soon as it is closed). Otherwise
+	// the connection is expected to stay open: a short look for a spurious close.
+	if got && (strings.HasPrefix(o.ret, "ctx:") || o.ctxErr != "-") {
 		o.closed = waitClosed(sc, stallCloseBound)
 		o.closeLate = !o.closed
 	} else {
@@ -875,6 +903,7 @@ func stallExec(sub stallSubject, pl stallPlan) (o stallObs) {
 				o.follow = stallRetClass(e)
 			case <-time.After(stallReturnBound):
 				o.follow = "blocked"
+				o.retLate = true
 			}
 			o.followCl = waitClosed(sc, stallCloseBound)
 		}
@@ -901,6 +930,16 @@ func stallExec(sub stallSubject, pl stallPlan) (o stallObs) {
 	case <-time.After(2 * time.Second):
 	}
 	return
+}
+
+// stallObsLate: the run hit one of the harness's own time bounds (as opposed to showing a behaviour).
+// A handshake that swallowed an injected failure and then waits for its peer is a behaviour (ioerr).
+func stallObsLate(j *stallJob) bool {
+	o := j.obs
+	if o.setupErr != nil || (strings.HasPrefix(j.plan.sched, "ioerr") && !j.sub.plain) {
+		return false
+	}
+	return o.retLate || o.closeLate || strings.HasPrefix(o.ret, "late") || o.ret == "never-returned"
 }
 
 // ---------------------------------------------------------------------------------------------
@@ -1040,7 +1079,7 @@ func runStall(c *Ctx) (err error) {
 			err = nil
 		}
 	}()
-	work, e := os.MkdirTemp(fsWorkDir(c), "stall-")
+	work, e := os.MkdirTemp(fsWorkDir(c), scratchPrefix("stall"))
 	if e != nil {
 		return e
 	}
@@ -1049,16 +1088,14 @@ func runStall(c *Ctx) (err error) {
 	if e != nil {
 		return e
 	}
-	fsBefore := stallFSDirs()
 	defer func() {
-		// FS authentication creates directories under /tmp; a handshake cut short may leave one
-		for d := range stallFSDirs() {
-			if !fsBefore[d] {
-				if os.Remove(d) == nil {
-					c.Count("fs-dir-left-behind-removed")
-				}
-			}
+		// FS authentication creates directories under /tmp; a handshake cut short may leave one.
+		// Only directories whose names crossed this engine's own connections are removed (fs_own_dirs.go):
+		// other checks running at the same time have theirs in flight under the same /tmp/FS_* pattern.
+		if n := ownFS.cleanup(); n > 0 {
+			c.Res.Distribution["fs-dir-left-behind-removed"] += n
 		}
+		c.Res.Distribution["fs-dir-names-seen-on-own-wire"] = len(ownFS.all())
 	}()
 
 	// ---- subjects
@@ -1087,9 +1124,15 @@ func runStall(c *Ctx) (err error) {
 	var jobs []*stallJob
 	traces := map[string]string{}
 	var usable []stallSubject
+	c.Planned("stall-subjects", len(subjects))
 	for _, sub := range subjects {
 		o1 := stallExec(sub, stallPlan{sched: "nofault-live"})
 		o2 := stallExec(sub, stallPlan{sched: "nofault-bg"})
+		if o1.retLate || o2.retLate { // a fault-free run that did not finish in 5 s: once more, with 50 s
+			c.Count("late-run-repeated-alone")
+			o1 = stallExec(sub, stallPlan{sched: "nofault-live", scale: 10})
+			o2 = stallExec(sub, stallPlan{sched: "nofault-bg", scale: 10})
+		}
 		if o1.setupErr != nil || o2.setupErr != nil {
 			c.Res.Notes = append(c.Res.Notes, fmt.Sprintf("subject %s unusable: setup: %v %v", sub.name, o1.setupErr, o2.setupErr))
 			c.Count("subject-unusable")
@@ -1116,6 +1159,7 @@ func runStall(c *Ctx) (err error) {
 		}
 		traces[sub.name] = o1.trace
 		usable = append(usable, sub)
+		c.Ran("stall-subjects", 1)
 		j1 := &stallJob{sub: sub, trace: o1.trace, plan: stallPlan{sched: "nofault-live"}, obs: o1}
 		j2 := &stallJob{sub: sub, trace: o1.trace, plan: stallPlan{sched: "nofault-bg"}, obs: o2}
 		jobs = append(jobs, j1, j2)
@@ -1183,6 +1227,30 @@ func runStall(c *Ctx) (err error) {
 		}()
 	}
 	wg.Wait()
+	// A run that was LATE (no return / no close within the bound, stall not reached) under eight
+	// workers on a busy machine is not yet an observation of the library: it is repeated on its own with
+	// ten times the bounds and that run is judged. A genuine failure to return is late again; repeating
+	// stops after three runs that stayed late (the failure is then systematic, the rest keep their verdict).
+	{
+		stillLate := 0
+		for _, j := range todo {
+			if stillLate >= 3 {
+				break
+			}
+			if !stallObsLate(j) {
+				continue
+			}
+			c.Count("late-run-repeated-alone")
+			pl := j.plan
+			pl.scale = 10
+			o := stallExec(j.sub, pl)
+			j.obs = o
+			if stallObsLate(j) {
+				stillLate++
+				c.Count("late-run-still-late-alone")
+			}
+		}
+	}
 	jobs = append(jobs, todo...)
 	sort.SliceStable(jobs, func(i, j int) bool {
 		a, b := jobs[i], jobs[j]
@@ -1225,11 +1293,13 @@ func runStall(c *Ctx) (err error) {
 				c.Count("k:inner")
 			}
 		}
+		c.Planned("stall-runs", 1)
 		if o.setupErr != nil {
 			c.Count("setup-error")
 			c.Res.Notes = append(c.Res.Notes, fmt.Sprintf("%s: setup: %v", j.label(), o.setupErr))
 			continue
 		}
+		c.Ran("stall-runs", 1)
 		if o.retAfter > maxRet {
 			maxRet = o.retAfter
 		}
@@ -1382,6 +1452,11 @@ func runStall(c *Ctx) (err error) {
 		names = append(names, fmt.Sprintf("%s=%d", s.name, len(traces[s.name])))
 	}
 	c.Res.Notes = append(c.Res.Notes, "I/O calls per subject: "+strings.Join(names, " "))
+	if n := stallPeerPanics.Load(); n > 0 {
+		for i := int64(0); i < n; i++ {
+			c.HarnessPanic("stall counterpart", stallPeerPanicMsg.Load())
+		}
+	}
 	// blocking calls that take no context (the token issuer stalls inside a SCITOKENS handshake)
 	stallSciTokens(c, mat, seen)
 	// malformed operations: the oracle must refuse them
@@ -1436,17 +1511,6 @@ func plainScripts(c *Ctx, round int) []plainScript {
 			items = append(items, plainItem{k, sz, fr})
 		}
 		out = append(out, plainScript{fmt.Sprintf("rand%d.%d", round, i), items, c.Rng.Intn(2) == 0})
-	}
-	return out
-}
-
-func stallFSDirs() map[string]bool {
-	out := map[string]bool{}
-	m, _ := filepath.Glob("/tmp/FS_*")
-	for _, d := range m {
-		if st, err := os.Lstat(d); err == nil && st.IsDir() {
-			out[d] = true
-		}
 	}
 	return out
 }
